@@ -1159,7 +1159,13 @@ class SetPartition(SetIndex):
             set_name,
             self.frame._meta.columns.dtype,
             kwargs,
-            self.user_divisions,
+            # Carry the divisions along, the global cache they were computed
+            # into is bounded and is not available in other processes
+            (
+                self.user_divisions
+                if self.user_divisions is not None
+                else tuple(self._divisions())
+            ),
         )
         return SortIndexBlockwise(index_set)
 
